@@ -34,25 +34,35 @@ Definition locked_by (toks : list token_info) (pending : list (bytes * event)) (
                    | Some t => if beqb (ti_denom t) d && (0 <? amount) then to_hub (ti_dec t) amount else 0
                    | None => 0 end
                | _ => 0 end) pending).
-(* an execution event counts when the hub handled it: the batch was pending before the block's
-   EndBlocker and is gone afterwards *)
-Definition paid_by (toks : list token_info) (batches after : list batch) (pending : list (bytes * event)) (d : bytes) : Z :=
+(* an execution event counts when the hub handled it: the batch was pending before the block's EndBlocker, is gone
+   afterwards, and every transfer of it has the fee record that batchTxExecuted writes (a batch that merely disappears
+   -- released by the execution of a later batch of its token in the same block -- was not executed on the hub) *)
+Definition handled (after : list batch) (feerec_after : list (bytes * (Z * Z))) (chain coin : bytes) (bn : N) (b : batch) : bool :=
+  negb (existsb (batch_is chain coin bn) after)
+  && forallb (fun e => existsb (fun r : bytes * (Z * Z) => beqb (fst r) (s_txhash e)) feerec_after) (b_txs b).
+
+Definition paid_by (toks : list token_info) (batches after : list batch) (feerec_after : list (bytes * (Z * Z)))
+           (pending : list (bytes * event)) (d : bytes) : Z :=
   zsum (map (fun ce : bytes * event =>
                let chain := fst ce in
                match snd ce with
                | EvBatchExecuted _ coin bn _ _ _ _ =>
                    match ext_to_token toks chain coin, find (batch_is chain coin bn) batches with
-                   | Some t, Some b => if beqb (ti_denom t) d && negb (existsb (batch_is chain coin bn) after)
+                   | Some t, Some b => if beqb (ti_denom t) d && handled after feerec_after chain coin bn b
                                        then to_hub (ti_dec t) (zsum (map s_token (b_txs b))) else 0
                    | _, _ => 0 end
                | _ => 0 end) pending).
-(* execution events of batches that were pending and are still pending afterwards: the custody paid, the
-   hub dropped the claim (its handling failed) and keeps the transfers in flight *)
-Definition dropped_executions (batches after : list batch) (pending : list (bytes * event)) : list (bytes * bytes * N) :=
+(* execution events of batches that were pending and were not handled: the custody paid, the hub dropped the claim (its
+   handling failed) and keeps the transfers in flight -- or releases and refunds them later *)
+Definition dropped_executions (batches after : list batch) (feerec_after : list (bytes * (Z * Z)))
+           (pending : list (bytes * event)) : list (bytes * bytes * N) :=
   flat_map (fun ce : bytes * event =>
               match snd ce with
               | EvBatchExecuted _ coin bn _ _ _ _ =>
-                  if existsb (batch_is (fst ce) coin bn) batches && existsb (batch_is (fst ce) coin bn) after then [(fst ce, coin, bn)] else []
+                  match find (batch_is (fst ce) coin bn) batches with
+                  | Some b => if handled after feerec_after (fst ce) coin bn b then [] else [(fst ce, coin, bn)]
+                  | None => []
+                  end
               | _ => [] end) pending.
 
 (* the custody executes a batch once: a second execution event for the same batch in one block is not
@@ -89,10 +99,10 @@ Definition mon_C01_step (step : nat) (o : val) (prev cur : obs) (acc : track * l
     let ds := denoms_of toks in
     let at_end := kind =? 6 in
     let ledger' := if at_end then
-                     fold_left (fun l d => aset d (agetd 0 d l + locked_by toks (tr_pending t) d - paid_by toks (ob_batches prev) (ob_batches cur) (dedup_exec (tr_pending t) []) d) l) ds ledger
+                     fold_left (fun l d => aset d (agetd 0 d l + locked_by toks (tr_pending t) d - paid_by toks (ob_batches prev) (ob_batches cur) (ob_feerec cur) (dedup_exec (tr_pending t) []) d) l) ds ledger
                    else ledger in
     ((if at_end then map (fun x : bytes * bytes * N => viol k_c01_dropped step [VB (fst (fst x)); VB (snd (fst x)); vNat (snd x)])
-                             (dropped_executions (ob_batches prev) (ob_batches cur) (tr_pending t)) else [])
+                             (dropped_executions (ob_batches prev) (ob_batches cur) (ob_feerec cur) (tr_pending t)) else [])
      ++ flat_map (fun d =>
                  let grow := if at_end then locked_by toks (tr_pending t) d else 0 in
                  (if phi_obs toks cur d <=? phi_obs toks prev d + grow then []
